@@ -139,15 +139,103 @@ func (c *ownCtx) ownLoc(addr ssa.Value) bool {
 		}
 		return c.ownLoc(outer)
 	case *ssa.FieldAddr:
-		// a field of a struct this function allocated
-		if !c.freshStruct(a.X) {
+		// a field of a struct allocated here (or by a repository function returning a fresh one): every value stored
+		// in that field of that very object -- where it is built and here -- must be owned
+		roots := map[*ssa.Alloc]bool{}
+		if !c.structRoots(a.X, roots, map[ssa.Value]bool{}) || len(roots) == 0 {
 			return false
 		}
-		st := a.X.Type().Underlying().(*types.Pointer).Elem()
-		return c.storesOwned(a.Parent(), func(s *ssa.Store) bool {
-			fa, ok := s.Addr.(*ssa.FieldAddr)
-			return ok && fa.Field == a.Field && types.Identical(fa.X.Type().Underlying().(*types.Pointer).Elem(), st)
-		})
+		fns := map[*ssa.Function]bool{a.Parent(): true}
+		for r := range roots {
+			fns[r.Parent()] = true
+		}
+		for fn := range fns {
+			ok := c.storesOwned(fn, func(s *ssa.Store) bool {
+				fa, isF := s.Addr.(*ssa.FieldAddr)
+				if !isF || fa.Field != a.Field {
+					return false
+				}
+				rs := map[*ssa.Alloc]bool{}
+				if !c.structRoots(fa.X, rs, map[ssa.Value]bool{}) {
+					// an unknown object of the same type: not this one if this one's roots are all local allocations
+					return false
+				}
+				for r := range rs {
+					if roots[r] {
+						return true
+					}
+				}
+				return false
+			})
+			if !ok {
+				return false
+			}
+		}
+		return true
+	}
+	return false
+}
+
+// structRoots collects the allocation sites the struct pointer v may designate; false if some source is not an
+// allocation of this function or of a repository function it calls (parameter, field, element, ...).
+func (c *ownCtx) structRoots(v ssa.Value, out map[*ssa.Alloc]bool, seen map[ssa.Value]bool) bool {
+	if seen[v] {
+		return true
+	}
+	seen[v] = true
+	switch x := v.(type) {
+	case *ssa.Alloc:
+		out[x] = true
+		return true
+	case *ssa.ChangeType:
+		return c.structRoots(x.X, out, seen)
+	case *ssa.Phi:
+		for _, e := range x.Edges {
+			if !c.structRoots(e, out, seen) {
+				return false
+			}
+		}
+		return true
+	case *ssa.UnOp:
+		a, ok := x.X.(*ssa.Alloc)
+		if !ok {
+			return false
+		}
+		any := false
+		for _, f := range append([]*ssa.Function{a.Parent()}, a.Parent().AnonFuncs...) {
+			for _, b := range f.Blocks {
+				for _, ins := range b.Instrs {
+					if s, ok := ins.(*ssa.Store); ok && (s.Addr == a || c.sameFree(s.Addr, a)) {
+						any = true
+						if !c.structRoots(s.Val, out, seen) {
+							return false
+						}
+					}
+				}
+			}
+		}
+		return any
+	case *ssa.Call:
+		callee := x.Call.StaticCallee()
+		if callee == nil || callee.Blocks == nil || !c.p.inRepoFn(callee) || c.depth >= 2 {
+			return false
+		}
+		c.depth++
+		defer func() { c.depth-- }()
+		for _, b := range callee.Blocks {
+			for _, ins := range b.Instrs {
+				if r, ok := ins.(*ssa.Return); ok {
+					for _, res := range r.Results {
+						if _, isPtr := res.Type().Underlying().(*types.Pointer); isPtr {
+							if !c.structRoots(res, out, seen) {
+								return false
+							}
+						}
+					}
+				}
+			}
+		}
+		return true
 	}
 	return false
 }
